@@ -110,13 +110,14 @@ def g_p3(tier, cfgs=("s",)):
     n = str_size()
     for c in cfgs:
         out += [I("p3_lazy", cfg=c, defs=["P3_LEN=48"], flags=UW(51), cap=120, rss=0.5),
-                I("p3_lazy", cfg=c, defs=["P3_PREFIX_REL=20"], flags=UW(n + 45), cap=400, rss=2.5)]
+                I("p3_lazy", cfg=c, defs=["P3_PREFIX_REL=20"], flags=UW(n + 45), cap=400, rss=2.5),
+                I("p3_lazy", cfg=c, defs=["P3_LEN=150", "P3_PREFIX_ABS=110"], flags=UW(153), cap=300, rss=1.5)]
         if tier == "thorough":
             out.append(I("p3_lazy", cfg=c, flags=UW(n + 45), cap=2400, rss=10.0))
     return out
 
 
-P4B_QUICK = [(16, 3, 0, 0), (16, 3, 1, 0), (17, 0, 0, 0), (17, 2, 1, 0), (15, 1, 0, 0), (15, 2, 1, 2), (16, 0, 0, 1), (16, 2, 0, 3),
+P4B_QUICK = [(16, 4, 0, 0), (16, 3, 0, 0), (16, 3, 1, 0), (17, 0, 0, 0), (17, 2, 1, 0), (15, 1, 0, 0), (15, 2, 1, 2), (16, 0, 0, 1), (16, 2, 0, 3),
              (17, 0, 0, 3), (16, 0, 2, 0)]
 
 
@@ -130,6 +131,8 @@ def p4b_cells(tier):
                 for dbl in ((0, 2) if pat in (1, 3) else (1, 3)):
                     cells.append((ntok, pat, trail, dbl))
             cells.append((ntok, pat, 2, 0))
+        cells.append((ntok, 4, 0, 0))
+        cells.append((ntok, 4, 1, 0))
     return cells
 
 
@@ -259,8 +262,10 @@ P("C08", lambda t: g_t1(t) + g_t2(t) + g_t3_lemma(t) + g_t4() + g_p3(t) + g_p5()
 P("C09", lambda t: g_p4(t) + g_p5() + g_p6() + g_t1(t, rules=(0, 1)))
 P("C10", lambda t: [I("k5_features"), I("k5_default"), I("k9_create"), I("p7_load"), I("p7_store"), I("k8_crypt")] + g_p5() + g_k3() + [I("k6_store")])
 P("C11", lambda t: [I("k4_birthday"), I("k9_create"), I("k8_crypt"), I("p7_store")] + g_k3() + [I("k6_store")])
-P("C12", lambda t: [I("k8_crypt"), I("k8_crypt", defs=["PWMAX=20"], cap=600, rss=3.0)] + g_p3(t) + g_k2()[1:3] + g_k3()
-  if t == "thorough" else [I("k8_crypt")] + g_p3(t) + g_k2()[1:3] + g_k3())
+K8_LONG = dict(defs=["PWMAX=500", "PW_PREFIX=490", "DEP_PW_COPY=512", "DEP_STR_MAX=1", "K8_LIGHT=1"], flags=UW(515), cap=1800, rss=11.0)
+K8_MID = dict(defs=["PWMAX=72", "PW_PREFIX=64", "DEP_PW_COPY=80", "DEP_STR_MAX=1", "K8_LIGHT=1"], flags=UW(75), cap=600, rss=2.0)
+P("C12", lambda t: [I("k8_crypt"), I("k8_crypt", **K8_MID)] + ([I("k8_crypt", defs=["PWMAX=20"], cap=900, rss=3.0), I("k8_crypt", **K8_LONG)] if t == "thorough" else [])
+  + g_p3(t) + g_k2()[1:3] + g_k3())
 P("C13", lambda t: g_api() + [I("k5_features"), I("k5_default"), I("p2_layout"), I("p6_auto")] + g_p5() + g_k3())
 P("C14", lambda t: g_p3(t) + g_p4(t) + g_t1_safety() + g_t1(t) + g_p5() + g_p6() + [I("p7_load"), I("k8_crypt")])
 P("C15", lambda t: [I("k9_create"), I("p7_load"), I("h_free"), I("h_inject")] + g_p5())
